@@ -65,6 +65,10 @@ P('C09','typestate of buffered readers over connections, join-completeness (rece
   "Decides structural necessary conditions that each quantify over all segmentations and close orders: a connection wrapped by a buffered reader (bufio.NewReader / Hijack) is never the copy source, the reader is; every path to return receives as many copy completions as were started (four known findings: the tunnels return after the first direction ends, so a half-closing client loses the reply); relays write exactly buf[0:n] of the same iteration and fail on short writes; the PROXY line precedes every other upstream write and consumed bytes (ClientHello) are replayed whole before the tunnel starts; every dialling tcp.Handler supports the PROXY option; the tcp.conn wrapper forwards unchanged. Byte-for-byte delivery over real sockets is run-time behaviour and not decided.",
   COMMON_NOTE)
 
+P('C10','compiler-proved bounds (go build -d=ssa/check_bce: every bounds check the prove pass cannot eliminate is reported) + difference-bound prover over branch facts (Bellman-Ford) + panic-source enumeration',
+  "Proof for the stated clauses only: every index/slice expression of clientHelloBufferSize, readServerName and clientHelloMsg.unmarshal is proved in bounds by the Go compiler's prove pass (obligations counted from the AST; discharged = no compiler report), the functions contain no other panic source, the residual data[5:] of the SNI handler is discharged by result >= 10 on the nil-error path, the buffer size satisfies result - recordLength <= 5 and result <= 16389 on every nil-error return (never more than the first TLS record), and the handler allocates exactly that size, performs one consuming read into it and looks up the route only under the successfully parsed, non-empty name. Equality of the extracted name with crypto/tls's on well-formed hellos is semantic equivalence of two parsers and is NOT part of the claim.",
+  "Trusted: soundness of the Go compiler's prove pass (bounds-check elimination), the checker's difference-bound prover, Go type checker and go/ssa, io.ReadFull's contract.", level='proof')
+
 checks=[]; na=[]
 for p in props:
     id=p['id']
